@@ -282,11 +282,39 @@ def trivial(line, res):
     return res in ('', 'none', '0', '[]', '[] 0 0 0 0')
 
 
-RULE = 'TODO'
+RULE = ('correspondence: (i) random operation histories on a new display (draw_pixel, draw_iter, default fill_solid / fill_contiguous / '
+        'clear, set_pixel, flag changes; 1-13 operations) under the four combinations of allow_overdraw / allow_out_of_bounds_drawing, '
+        'points inside, on the border, just outside, on the cells an unchecked index would alias, and at the i32 extremes, repeated points '
+        'with tunable probability; interleaved probes get_pixel / affected_area / swap_xy / Debug / full dump; panics caught and compared '
+        'by kind; for all 12 colour types; (ii) pairs of histories for == and diff (equal, one cell apart at every corner/border, unrelated); '
+        '(iii) patterns over every colour type\'s character set (upper and lower case hex), empty / 64-wide / 64-tall, plus too wide, '
+        'too tall, ragged and bad-character patterns, and every printable ASCII character alone for every type. '
+        'A case is non-trivial when the model result is not an empty dump/none; distinct = distinct case lines. '
+        'search (p_*): the same inputs judged on the implementation alone against an independent HashMap reference: expected panic kind, '
+        'get_pixel on a 70x70 window + far points after every operation, tight bounding box, ==/diff against the reference maps, '
+        'from_pattern against the documented character tables, Debug text against the documented format, and the round trip.')
 EXHAUSTIVE = {'quick': False, 'thorough': False}
-ASSUMPTIONS = []
-TRUSTED = []
+ASSUMPTIONS = ['histories are judged up to their first panic (a panicking test is a failed test); the state left behind by a caught panic '
+               'is compared by the search suite only',
+               'fill areas in generated cases have their top-left within +-2^29 (the range of C16 in which Rectangle::points() does not saturate)',
+               'pattern rows are ASCII in the correspondence (row.len() is a byte length; every character set is ASCII)']
+TRUSTED = ['modelled, not verified: core::char::to_digit / from_digit / to_ascii_uppercase on ASCII (evaluated by translate/gen_mock.py), '
+           'usize wrap of a negative index (modelled as the index panic it causes), the Rgb888 / named colour constants as computed by '
+           'gen_mock.py from rgb_color.rs',
+           'Debug: the header / "(n empty rows skipped)" text is modelled (debug_string) and compared by correspondence; the theorems speak '
+           'about the rows (debug_rows)']
 PARTIAL = []
-LEVEL_TEXT = 'TODO'
-LEVEL_NOTE = 'TODO'
-CLAIMED = False
+LEVEL_TEXT = ('Proof: 26 Coq theorems over the Gallina model of MockDisplay (coq/Model/Mockdisplay.v: the 4096-cell array with the index '
+              'arithmetic as written, both flags, every panic as a value). After ANY operation history that runs to its end get_pixel(p) is the '
+              'content given by the last event at p and None elsewhere and outside the display (induction over the history); drawing panics '
+              'exactly at the first pixel outside the display / drawn twice while the respective check is on, and with no other panic kind; '
+              'affected_area is zero when nothing is touched, contains every touched cell, is contained in every rectangle that does, and each of '
+              'its sides touches a touched cell; == holds exactly when all 64x64 cells agree; diff never panics, colours exactly the differing cells '
+              'GREEN/RED/BLUE and is empty exactly when ==; swap_xy mirrors; for all 12 ColorMapping tables (regenerated from color_mapping.rs on '
+              'every run) colour->char->colour and char->colour->char are identities on the documented sets, from_pattern puts the colour of the '
+              'character in row y, column x into cell (x,y), Debug prints a pattern back (padded, trailing blank rows dropped) and parsing '
+              'Debug output gives back the same display. Model and code are tied by running both on the same histories / patterns on every run.')
+LEVEL_NOTE = ('Trusted: Coq kernel, extraction (ExtrOcamlBasic), the OCaml/Rust drivers and the translator gen_mock.py (fails closed on any '
+              'unknown source shape); the hand-written model is validated by differential testing (panics caught and canonicalised), not proved '
+              'equal to the Rust code. assert_eq / assert_pattern message paths and EG_FANCY_PANIC output are not modelled.')
+CLAIMED = True
